@@ -105,6 +105,9 @@ Definition sel_pos (s : selection) : pos :=
 Definition sel_dirs (s : selection) : list directive :=
   match s with SField _ _ _ d _ => d | SSpread _ _ d => d | SInline _ _ d _ => d end.
 
+(** a field node as the executor holds it (a pointer to ast.Field): name, Position(), sub-selections *)
+Record fnode := { fn_name : name; fn_pos : pos; fn_sub : list selection }.
+
 (** coerced variable values, as far as @skip/@include look at them *)
 Definition env := list (name * bool).
 
